@@ -16,7 +16,8 @@
    reports the `co.yield` of a park executes the kernel half (subscribe) until the guard is released or the
    coroutine is resumed by subscribe itself.  Unparkers and cancellers are the threads that hit the
    unpark / cancel sites.  After `blk.new` (a fresh Blocker) a kernel half still in flight belongs to the old
-   object ([oldkth]): only its set_co and its cancel() still matter (ParkModel: oldk).
+   object ([oldkth]): since the repair of F31 it no longer touches the Cancel registration (a set_co by it is
+   rejected) and its cancel re-check can only find its own old slot empty.
 
    Time: only API-level events carry the virtual clock.  The model clock is kept at the largest lower
    bound known (logged times, deadlines of timers that fired); a logged time below the model clock rejects
@@ -28,8 +29,8 @@ Import ListNotations.
 Require Import MayV.Rt.AtomicDur MayV.Base.BlockerSpec MayV.Rt.ParkModel MayV.Rt.ParkThread.
 Open Scope Z_scope.
 
-Definition mstep := step true true.
-Definition MReach := Reach true true.
+Definition mstep := step true true true.
+Definition MReach := Reach true true true.
 
 (* ---------- acceptor bookkeeping (not part of the model) ---------- *)
 Record aux := {
@@ -282,6 +283,10 @@ Definition plan (e : list Z) : P :=
         else ret
     | 35 => (* yield_back: check_cancel.load *)
         if isu a x0 then match up s0 with UYb => guard (Bool.eqb (zb val) (ccheck s0)) ;; act AU | _ => fail end else ret
+    | 36 => (* subscribe: wait_co.take() of the cancel re-check *)
+        if isk a x0 then match kp s0 with KC3 => guard (Bool.eqb (zb val) (slot s0)) ;; act AK | _ => fail end
+        else if isoldk a x0 then guard (negb (zb val))       (* the slot of the earlier Blocker is empty *)
+        else ret
     (* ----- src/cancel.rs ----- *)
     | 40 => (* is_canceled: state.load *)
         if isu a x0 then
@@ -301,29 +306,25 @@ Definition plan (e : list Z) : P :=
         else ret
     | 42 => (* cancel(): state.fetch_or(1) *)
         flush a ;;
-        if isk a x0 then match kp s0 with KC1 => act AK | _ => fail end
+        if isk a x0 then fail                                  (* the kernel half does not call cancel() any more *)
         else if negb (meco x0 =? 0) then withs (fun s _ => match cn s (n a) with CIdle => act (ACnOr (n a)) | _ => fail end)
         else ret
     | 43 => (* cancel(): self.co.take() *)
-        if isk a x0 then match kp s0 with KC2 => guard (Bool.eqb (zb val) (cco_some (cco s0))) ;; act AK | _ => fail end
+        if isk a x0 then fail
         else if negb (meco x0 =? 0) then
           match cn s0 (n a) with CTakeCo => guard (Bool.eqb (zb val) (cco_some (cco s0))) ;; act (ACnTakeCo (n a)) | _ => fail end
         else ret
     | 44 => (* cancel(): co.take() *)
-        if isk a x0 then
-          match kp s0 with
-          | KC3 => guard (Bool.eqb (zb val) (slot s0)) ;; act AK
-          | KC3s => guard (negb (zb val)) ;; act AK
-          | _ => fail end
+        if isk a x0 then fail
         else if negb (meco x0 =? 0) then
           match cn s0 (n a) with
           | CTake => guard (Bool.eqb (zb val) (slot s0)) ;; act (ACnTake (n a))
           | CTakeS => guard (negb (zb val)) ;; act (ACnTake (n a))
           | _ => fail end
         else ret
-    | 45 => (* set_co: self.co.store *)
-        if isk a x0 then match kp s0 with KSetco => act AK | _ => fail end
-        else if isoldk a x0 then match oldk s0 with S _ => act AStaleSetco | O => setax (set_desync true) end
+    | 45 => (* set_co: self.co.store - before the coroutine is published *)
+        if isk a x0 then match kp s0 with KReg => act AK | _ => fail end
+        else if isoldk a x0 then fail                          (* a stale registration: finding F31 *)
         else ret
     | 46 => (* disable_cancel: fetch_add(2) *)
         if isu a x0 then match up s0 with UWkD => act AU | _ => ret end else ret
@@ -351,7 +352,7 @@ Definition ainit : ast := {| ms := init; xs := aux0 |}.
 Definition accept_ev (x : ast) (e : list Z) : option ast :=
   if desync (xs x) then Some x else
   match plan e {| cs := ms x; acts := []; ax := xs x |} with
-  | Some p => match run true true (ms x) (rev (acts p)) with
+  | Some p => match run true true true (ms x) (rev (acts p)) with
               | Some s' => Some {| ms := s'; xs := ax p |}
               | None => None end
   | None => None end.
@@ -368,17 +369,17 @@ Definition monitors_ok (x : ast) : bool :=
   Nat.eqb (places (ms x)) (match up (ms x) with UDead => 0%nat | _ => 1%nat end).
 
 (* ---------- soundness ---------- *)
-Lemma run_reach l : forall s s', MReach s -> run true true s l = Some s' -> MReach s'.
+Lemma run_reach l : forall s s', MReach s -> run true true true s l = Some s' -> MReach s'.
 Proof.
   induction l as [|a l IH]; cbn; intros s s' R H; [inversion H; subst; exact R|].
-  destruct (step true true s a) as [s1|] eqn:E; [|discriminate]. eapply IH; [eapply RS; eauto | exact H].
+  destruct (step true true true s a) as [s1|] eqn:E; [|discriminate]. eapply IH; [eapply RS; eauto | exact H].
 Qed.
 
 Lemma accept_ev_reach x e x' : MReach (ms x) -> accept_ev x e = Some x' -> MReach (ms x').
 Proof.
   unfold accept_ev. intros R H. destruct (desync (xs x)); [inversion H; subst; exact R|].
   destruct (plan e _) as [p|]; [|discriminate].
-  destruct (run true true (ms x) (rev (acts p))) as [s'|] eqn:E; [|discriminate].
+  destruct (run true true true (ms x) (rev (acts p))) as [s'|] eqn:E; [|discriminate].
   inversion H; subst; cbn. eapply run_reach; eauto.
 Qed.
 
